@@ -219,7 +219,9 @@ def run(ck, F):
             continue
         is_ref = any("'ref'" in og.nf_str(c[1]) and c[2] for c in ctx if c[0] == "alt")
         is_xml = any("starts_with" in og.nf_str(c[1]) and c[2] for c in ctx if c[0] == "alt")
-        xn = og.nf_str(CE.expand(fields["xml_name"]))
+        # both spellings: with local helper functions expanded and as written (a lookup function that is simple enough to be
+        # expanded no longer appears by name)
+        xn = og.nf_str(CE.expand(fields["xml_name"])) + " ‖ " + og.nf_str(fields["xml_name"])
         tn = og.nf_str(CE.expand(fields["target_namespace"]))
         label = "xml-ref" if is_xml else "ref" if is_ref else "named"
         if label == "named":
